@@ -261,7 +261,7 @@ pub fn run_c33(ctx: &Ctx) -> i32 {
     rep.assume("every realloc is treated as moving (alloc+copy+free): a buffer that is grown while it holds the secret counts as freed unscrubbed, as the repository's own comments state");
     rep.assume("exempt: blocks byte-identical to the two documented upstream pad10_to_rate buffers, rebuilt per secret by the harness");
     rep.assume("verdict rule: violation = freed non-exempt block containing the 32-byte secret contiguously or >= 2 of its limbs; single-limb sightings are logged only");
-    let n = ctx.tier.pick(800usize, 40_000);
+    let n = ctx.tier.pick(800usize, 400_000);
     (0..n).into_par_iter().for_each(|i| {
         if i % 32 == 0 && ctx.over_budget() {
             return;
